@@ -177,6 +177,33 @@ example : ∃ f, build (fun _ => 7) 19 784931 [[1], [2], [1]] = .ok f :=
 theorem basic_filter_entries (outs : List (List Bytes)) (prevs : List Bytes) :
     basicEntries outs prevs = basicElements outs prevs := Lemmas.basicEntries_eq_spec outs prevs
 
+/-- exactly which scripts are BIP158 elements of a block: an output script iff it is non-empty and its first
+    byte is not OP_RETURN (0x6a); a spent previous-output script iff it is non-empty -/
+theorem basic_elements_iff (outs : List (List Bytes)) (prevs : List Bytes) (s : Bytes) :
+    s ∈ basicElements outs prevs ↔
+      (s ∈ outs.flatten ∧ ∃ b t, s = b :: t ∧ b ≠ OP_RETURN) ∨ (s ∈ prevs ∧ s ≠ []) := by
+  unfold basicElements
+  rw [List.mem_append, List.mem_filter, List.mem_filter]
+  constructor
+  · rintro (⟨h1, h2⟩ | ⟨h1, h2⟩)
+    · left
+      refine ⟨h1, ?_⟩
+      cases s with
+      | nil => simp at h2
+      | cons b t => exact ⟨b, t, rfl, by simpa using h2⟩
+    · right
+      refine ⟨h1, ?_⟩
+      cases s with
+      | nil => simp at h2
+      | cons b t => simp
+  · rintro (⟨h1, b, t, rfl, hb⟩ | ⟨h1, h2⟩)
+    · left; exact ⟨h1, by simpa using hb⟩
+    · right
+      refine ⟨h1, ?_⟩
+      cases s with
+      | nil => exact absurd rfl h2
+      | cons b t => simp
+
 /-- The basic filter of a block (key = first 16 bytes of the block hash, P = 19, M = 784931) matches
     every BIP158 element of the block. -/
 theorem basic_filter_contents (Hk : Bytes → Bytes → Nat) (blockHash : Bytes)
